@@ -4,7 +4,7 @@
    Molecule.can_be_yielded, Fragment.__eq__, Fragment.umi_eq. *)
 From Coq Require Import ZArith List Bool Permutation.
 Import ListNotations.
-From SCMO Require Import Gen.GenEject Model.C07 Proofs.C07_a Proofs.C07.
+From SCMO Require Import Gen.GenEject Model.C07 Proofs.C07_a Proofs.C07 Proofs.C07_b Proofs.C07_c.
 Open Scope Z_scope.
 
 (* the pop loop `for i, j in enumerate(to_pop): l.pop(j - i)` is exactly `partition` *)
@@ -128,3 +128,87 @@ Example C07_history_example :
     = [[0; 0]; [1; 1]; [2; 3; 2; 3]].
 Proof. vm_compute. repeat split. Qed.
 Print Assumptions C07_history_example.
+
+(* ------------------------------------------------------------------ extension: what every yielded molecule is
+   (Proofs/C07_b.v).  For EVERY configuration, schedule and input (no sortedness needed): *)
+
+(* a yielded molecule never mixes two samples *)
+Theorem C07_molecule_one_sample : forall c fs outs fl ok, runC c fs = (outs, fl, ok) ->
+  forall m, In m (concat outs ++ fl) -> forall g h, In g (m_frags m) -> In h (m_frags m) -> f_sample g = f_sample h.
+Proof. exact molecule_one_sample. Qed.
+Print Assumptions C07_molecule_one_sample.
+
+(* pooling_method 1: nor two match hashes *)
+Theorem C07_molecule_one_hash : forall c fs outs fl ok, c_pooling c =? 0 = false -> runC c fs = (outs, fl, ok) ->
+  forall m, In m (concat outs ++ fl) -> forall g h, In g (m_frags m) -> In h (m_frags m) -> f_hash g = f_hash h.
+Proof. exact molecule_one_hash. Qed.
+Print Assumptions C07_molecule_one_hash.
+
+(* the fragments of a yielded molecule are in arrival order (a subsequence of the input) *)
+Theorem C07_molecule_arrival_order : forall c fs outs fl ok, runC c fs = (outs, fl, ok) ->
+  forall m, In m (concat outs ++ fl) -> subseq (m_frags m) fs.
+Proof. exact molecule_arrival_order. Qed.
+Print Assumptions C07_molecule_arrival_order.
+
+(* pooling_method 0: every fragment of a yielded molecule except its first compared equal (Fragment.__eq__: same
+   sample / strand / contig, start or end within the radius, UMI within the Hamming distance) to a fragment that was
+   already in the molecule: the members are linked by a chain of matches *)
+Theorem C07_molecule_chain_flat : forall c fs outs fl ok, c_pooling c =? 0 = true -> runC c fs = (outs, fl, ok) ->
+  forall m, In m (concat outs ++ fl) -> forall pre g post, m_frags m = pre ++ g :: post -> pre <> [] ->
+  exists g', In g' pre /\ frag_eq_frag (c_radius c) (c_hd c) g' g = true.
+Proof. exact molecule_chain_flat. Qed.
+Print Assumptions C07_molecule_chain_flat.
+
+(* all of the above as one record (non-empty, one sample, one hash, arrival order, chain) *)
+Theorem C07_molecule_sound : forall c fs outs fl ok, runC c fs = (outs, fl, ok) ->
+  forall m, In m (concat outs ++ fl) -> exists k, sound_mol c k fs m.
+Proof. exact molecule_sound. Qed.
+Print Assumptions C07_molecule_sound.
+
+(* non-vacuity: two interleaved cells with identical coordinates and UMI are kept apart by both pooling methods *)
+Example C07_molecule_example :
+  ids_of (runC (ex_cfg (Some 0)) ex_two) = [[0; 2]; [1; 3]]
+  /\ ids_of (runC (ex_cfg1 (Some 0)) ex_two) = [[0; 2]; [1; 3]]
+  /\ map (fun m => map f_sample (m_frags m)) (emitted mol (runC (ex_cfg (Some 0)) ex_two)) = [[0; 0]; [1; 1]].
+Proof. vm_compute. repeat split. Qed.
+Print Assumptions C07_molecule_example.
+
+(* with check_eject_every = None the cache size is never looked at *)
+Theorem C07_never_eject_ignores_cache : forall c k fs,
+  runC (with_every c None) fs = runC (with_every (with_cache c k) None) fs.
+Proof. exact runC_none_cache. Qed.
+Print Assumptions C07_never_eject_ignores_cache.
+
+(* monotonicity in cache_size: under the hypotheses the yielded multiset is the same for every larger cache *)
+Theorem C07_cache_monotone : forall L lag c k fs, preb L lag c fs = true -> c_cache c <= k ->
+  Permutation (emitted mol (runC c fs)) (emitted mol (runC (with_cache c k) fs)).
+Proof. exact cache_monotone. Qed.
+Print Assumptions C07_cache_monotone.
+
+Example C07_cache_example :
+  preb 10 0 (ex_cfg (Some 0)) ex_d10 = true /\ c_cache (ex_cfg (Some 0)) <= 100
+  /\ ids_of (runC (ex_cfg (Some 0)) ex_d10) = [[1]; [0]; [2; 3]]
+  /\ ids_of (runC (with_cache (ex_cfg (Some 0)) 100) ex_d10) = [[0]; [1]; [2; 3]].
+Proof. vm_compute. repeat split; discriminate. Qed.
+Print Assumptions C07_cache_example.
+
+(* ------------------------------------------------------------------ none lost, none duplicated (Proofs/C07_c.v):
+   with distinguishable reads no molecule is yielded twice and the yielded molecules are pairwise disjoint; together
+   with C07_emit_once every wanted read is in exactly one yielded molecule object - every schedule, pooling method,
+   cache size, including the final flush *)
+Theorem C07_no_molecule_twice : forall c fs outs fl, NoDup (map f_id fs) -> runC c fs = (outs, fl, true) ->
+  NoDup (map mol_ids (concat outs ++ fl)) /\ NoDup (concat (map mol_ids (concat outs ++ fl))).
+Proof. exact no_molecule_twice. Qed.
+Print Assumptions C07_no_molecule_twice.
+
+(* yielded molecules + fragments that joined an existing molecule = wanted fragments *)
+Theorem C07_yielded_count : forall c fs outs fl, runC c fs = (outs, fl, true) ->
+  length (members (concat outs ++ fl)) = length (filter (wantedC c) fs).
+Proof. exact yielded_count. Qed.
+Print Assumptions C07_yielded_count.
+
+Example C07_no_twice_example :
+  NoDup (map f_id ex_d10) /\ snd (runC (ex_cfg (Some 0)) ex_d10) = true
+  /\ map mol_ids (emitted mol (runC (ex_cfg (Some 0)) ex_d10)) = [[1]; [0]; [2; 3]].
+Proof. split; [|vm_compute; split; reflexivity]. vm_compute. repeat constructor; cbn; intuition discriminate. Qed.
+Print Assumptions C07_no_twice_example.
